@@ -863,8 +863,9 @@ def root_defs(r, name_node, depth=0):
     return frozenset(out)
 
 
-NONLINEAR = {'log', 'log2', 'log10', 'log1p', 'exp', 'expm1', 'sqrt', 'square', 'power', 'abs', 'absolute', 'fabs', 'tanh', 'arctanh',
-             'sign', 'clip', 'maximum', 'minimum', 'rankdata', 'reciprocal', 'floor', 'ceil', 'round', 'around', 'rint', 'where'}
+# element-wise non-linear maps of VALUES; functions that also serve to compute indices / selections (where, abs, round, clip,
+# maximum ...) are left out on purpose: the dependence engine does not tell a value flow from a selection flow
+NONLINEAR = {'log', 'log2', 'log10', 'log1p', 'exp', 'expm1', 'sqrt', 'square', 'power', 'tanh', 'arctanh', 'reciprocal', 'rankdata'}
 
 
 def mean_first(ctx, obs, q, averagers=('average_dataset_by', '_parse_input'), rule='MEAN-FIRST'):
